@@ -1169,21 +1169,22 @@ where
         }
         let mut safe = self.safe.write().await;
         if let None = safe.active_blob {
-            let blob_opt = safe.blobs.write().await.pop();
-            if let Some(mut blob) = blob_opt {
+            let blobs = safe.blobs.clone();
+            let mut blobs = blobs.write().await;
+            // Prepare the blob in its place in the closed list: a failure or a dropped future (cancellation
+            // at an await point) must not lose it
+            let last_id = blobs.last_id().ok_or_else(Error::uninitialized)?;
+            if let Some(leaf) = blobs.get_child_mut(last_id) {
+                let blob = &mut leaf.data;
                 // Active blob must keep its index in memory, otherwise it can't accept writes
-                if let Err(e) = blob.load_index().await {
-                    safe.blobs.write().await.push(blob).await;
-                    return Err(e);
-                }
+                blob.load_index().await?;
                 // Deletion markers appended while the blob was closed are synced by the deferred index dump only.
                 // As an active blob it must respect the dirty bytes limit right away
                 if self.too_many_dirty_bytes(blob.file_dirty_bytes()) {
-                    if let Err(e) = blob.fsyncdata().await {
-                        safe.blobs.write().await.push(blob).await;
-                        return Err(e.into());
-                    }
+                    blob.fsyncdata().await?;
                 }
+            }
+            if let Some(blob) = blobs.pop() {
                 safe.active_blob = Some(Box::new(ASRwLock::new(blob)));
                 Ok(())
             } else {
@@ -1221,15 +1222,16 @@ where
         if safe.active_blob.is_none() {
             Err(Error::active_blob_doesnt_exist().into())
         } else {
+            // Sync while the blob is still in its place and take the lock of the closed blobs before moving it:
+            // neither a failed sync nor a dropped future (cancellation at an await point) may lose the blob
+            if let Some(ablob) = safe.active_blob.as_ref() {
+                ablob.read().await.fsyncdata().await?;
+            }
+            let blobs = safe.blobs.clone();
+            let mut blobs = blobs.write().await;
             // always true
             if let Some(ablob) = safe.active_blob.take() {
-                let ablob = (*ablob).into_inner();
-                if let Err(e) = ablob.fsyncdata().await {
-                    // Blob must not be lost when sync fails: it stays active, its records stay readable
-                    safe.active_blob = Some(Box::new(ASRwLock::new(ablob)));
-                    return Err(e.into());
-                }
-                safe.blobs.write().await.push(ablob).await;
+                blobs.push((*ablob).into_inner()).await;
             }
             Ok(())
         }
